@@ -257,6 +257,19 @@ def p_full_nd(roi, shape):
     return got is want, f"roi_is_full={got!r}, numpy selects {np.size(sel)} of {X.size} elements"
 
 
+def p_empty_nd(roi, shape):
+    """emptiness of an N-D roi of slices with bounds in [0, n] in ANY order (a reversed slice selects nothing)
+    against the size of the numpy selection"""
+    from odc.geo.roi import roi_is_empty
+    roi = tuple(roi) if isinstance(roi, (tuple, list)) else roi
+    shape = tuple(shape) if isinstance(shape, (tuple, list)) else (shape,)
+    X = np.zeros(shape, dtype="uint8")
+    sel = X[roi]
+    want = bool(np.size(sel) == 0)
+    got = roi_is_empty(roi)
+    return got is want, f"roi_is_empty={got!r}, numpy selects {np.size(sel)} elements"
+
+
 def p_pad(s, pad, n):
     """any int / slice index (negative, open-ended): the padded region is the selection grown by pad, clamped"""
     from odc.geo.roi import roi_pad
@@ -316,7 +329,8 @@ def p_points(pts, ny, nx, padding, align):
 
 
 PREDICATES = {"norm": p_norm, "intersect3": p_intersect3, "queries": p_queries, "pad": p_pad,
-              "scale": p_scale, "points": p_points, "full_nd": p_full_nd}
+              "scale": p_scale, "points": p_points, "full_nd": p_full_nd,
+              "empty_nd": p_empty_nd}
 
 
 def search(out, tier):
@@ -348,6 +362,14 @@ def search(out, tier):
         for s in inr:
             run("queries", s, n)
         if n > 0:
+            # reversed / zero-width / ordinary slices in 1-D .. 3-D tuples: any number of reversed axes
+            sl = [slice(a, b) for a in range(0, n + 1) for b in range(0, n + 1)]
+            for s1 in sl:
+                run("empty_nd", s1, n)
+            for nd in (2, 3):
+                combos = list(itertools.product(sl, repeat=nd))
+                for roi in (combos if len(combos) <= 200 else rng.sample(combos, 200)):
+                    run("empty_nd", roi, (n,) * nd)
             # integer indices (negative too) alone and inside N-D tuples
             for i in range(-n, n):
                 run("full_nd", i, n)
